@@ -196,3 +196,41 @@ Example C07_fuel_nonvacuous :
   (length [12; 0; 0; 9; 0; 4; 1; 2; 3; 4] < 11)%nat /\ 4 <= 34.
 Proof. exact fuel_nonvacuous. Qed.
 Print Assumptions C07_fuel_nonvacuous.
+
+(* ---- "never make a handler run without bound": bounded worker pools / hand-off queues on the receive path
+   (pppoe dhcp6Sem under the session lock, pppoe raKicks, ipoe l2gwChan), acquired with a non-blocking select ---- *)
+(* whatever the history of arrivals and worker completions, and for every pool size, no handler call blocks *)
+Theorem C07_worker_pool_handler_never_blocks :
+  forall cap evs s, ps_stuck s = false ->
+  ps_stuck (fst (pool_run false cap s evs)) = false /\ ~ In Blocked (snd (pool_run false cap s evs)).
+Proof. exact pool_never_blocks. Qed.
+Print Assumptions C07_worker_pool_handler_never_blocks.
+(* the pool bounds the number of concurrently running workers *)
+Theorem C07_worker_pool_bounded :
+  forall blocking cap evs s, ps_busy s <= cap -> ps_busy (fst (pool_run blocking cap s evs)) <= cap.
+Proof. exact pool_bounded. Qed.
+Print Assumptions C07_worker_pool_bounded.
+(* n frames while all workers are held: all n calls return, min n cap are dispatched (the rest dropped),
+   the session is not wedged, and the pool drains when the workers are released — for every n and cap *)
+Theorem C07_worker_pool_burst :
+  forall cap n, pool_burst cap n = [TN n; TN (N.min n cap); TN 1; TN 1].
+Proof. exact pool_burst_spec. Qed.
+Print Assumptions C07_worker_pool_burst.
+(* the alternative "wait for a free worker instead of dropping" violates the property: 17 frames against 16 held
+   workers leave a handler blocked under the session lock ... *)
+Theorem C07_worker_pool_blocking_acquire_refuted :
+  ps_stuck (fst (pool_run true 16 pool0 (repeat Arrive 17))) = true /\
+  In Blocked (snd (pool_run true 16 pool0 (repeat Arrive 17))).
+Proof. exact pool_blocking_wedges. Qed.
+Print Assumptions C07_worker_pool_blocking_acquire_refuted.
+(* ... and once that has happened every later handler call blocks and no worker ever finishes *)
+Theorem C07_worker_pool_stuck_forever :
+  forall blocking cap evs s, ps_stuck s = true ->
+  fst (pool_run blocking cap s evs) = s /\ Forall (fun o => o = Blocked) (snd (pool_run blocking cap s evs)).
+Proof. exact pool_stuck_forever. Qed.
+Print Assumptions C07_worker_pool_stuck_forever.
+Example C07_worker_pool_nonvacuous :
+  ps_stuck pool0 = false /\ ps_busy pool0 <= 16 /\
+  ps_stuck (fst (pool_run true 16 pool0 (repeat Arrive 17))) = true.
+Proof. exact pool_nonvacuous. Qed.
+Print Assumptions C07_worker_pool_nonvacuous.
